@@ -215,6 +215,25 @@ def part_level_corr(model, data):
                         what = "merged element tree" if d and d[0][:2] == (1, 0) else "part observation"
                         return {"opts": [html, True], "part": f.path, "what": what, "at": list(d[0]) if d else None,
                                 "impl": repr(d[1])[:200] if d else None, "model": repr(d[2])[:200] if d else None}
+                    # partial extraction: File.get_content(elem) / get_text(elem) from an element of the
+                    # merged tree (a fresh collector walked from there) against Driver.observe_part_at
+                    try:
+                        root = f.root_element
+                    except Exception:  # noqa: BLE001
+                        continue
+                    elems = [e for e in root.iter() if isinstance(e.tag, str) and e is not root
+                             and etree.QName(e).localname in ("p", "tbl", "tc", "r", "hyperlink", "sdt")]
+                    rng = random.Random(len(elems) * 7919 + (1 if html else 0))
+                    for e in rng.sample(elems, min(2, len(elems))):
+                        pth = impl_part.elem_path(e, root)[1]
+                        from depth_collector_shim import canon_partial, partial_obs
+                        ri = canon_partial(partial_obs(f, e, root))
+                        mi = canon_partial(model.run([12] + case[1:] + [pth]))
+                        if ri != mi:
+                            dd = first_diff(ri, mi)
+                            return {"opts": [html, True], "part": f.path, "what": f"File.get_content(elem) at path {pth}",
+                                    "at": list(dd[0]) if dd else None,
+                                    "impl": repr(dd[1])[:200] if dd else None, "model": repr(dd[2])[:200] if dd else None}
             finally:
                 reader.close()
     return None
